@@ -15,17 +15,18 @@ use std::sync::Mutex;
 use std::sync::atomic::{AtomicU64, Ordering};
 
 /// the last one is a legal but not normalised spelling of the first (used by its own families only)
-pub const FILES: [&str; 4] = ["/p/a.graphql", "/p/b.graphql", "/p/c.graphql", "/p/x/../a.graphql"];
-/// (text, imports as absolute targets, parses)
+/// one of the names lies in a subdirectory: import specifiers are relative to the file that holds them, not to the root
+pub const FILES: [&str; 4] = ["/p/a.graphql", "/p/b.graphql", "/p/sub/c.graphql", "/p/x/../a.graphql"];
+/// (text, import specifiers, parses)
 pub const SOURCES: [(&str, &[&str], bool); 8] = [
     ("query Q { a }\n", &[], true),
-    ("#import F from \"./b.graphql\"\nquery Q { a ...F }\n", &["/p/b.graphql"], true),
+    ("#import F from \"./b.graphql\"\nquery Q { a ...F }\n", &["./b.graphql"], true),
     // three sources are multi-line CR LF texts (a checkout with autocrlf): a buffer that a line-end normalisation
     // would shrink, also for a root file that does not parse
     ("fragment F on T {\r\n  x\r\n}\r\n", &[], true),
-    ("#import * from \"./a.graphql\"\nfragment F on T { x }\n", &["/p/a.graphql"], true),
+    ("#import * from \"./a.graphql\"\nfragment F on T { x }\n", &["./a.graphql"], true),
     ("query Q {\r\n  a\r\n", &[], false),
-    ("#import * from \"./c.graphql\"\r\n#import * from \"./b.graphql\"\r\nquery R {\r\n  r\r\n}\r\nfragment G on T { y }\r\n", &["/p/c.graphql", "/p/b.graphql"], true),
+    ("#import * from \"./sub/c.graphql\"\r\n#import * from \"./b.graphql\"\r\nquery R {\r\n  r\r\n}\r\nfragment G on T { y }\r\n", &["./sub/c.graphql", "./b.graphql"], true),
     // same names as 2 and 0 with other bodies: re-supplying a file changes the module (explicit-call families only)
     ("fragment F on T { y z }\n", &[], true),
     ("query Q { b }\n", &[], true),
@@ -126,12 +127,31 @@ struct MTask {
     live: bool,
 }
 
+/// the file an import specifier names: the specifier joined to the directory of the file that holds it, `.` and `..` removed
+fn import_target(holder: &str, spec: &str) -> String {
+    let mut comps: Vec<&str> = holder.split('/').filter(|c| !c.is_empty()).collect();
+    comps.pop();
+    comps.extend(spec.split('/').filter(|c| !c.is_empty()));
+    let mut out: Vec<&str> = vec![];
+    for c in comps {
+        match c {
+            "." => {}
+            ".." => {
+                out.pop();
+            }
+            x => out.push(x),
+        }
+    }
+    format!("/{}", out.join("/"))
+}
+
 fn expected_required(t: &MTask) -> BTreeSet<String> {
     let mut out = BTreeSet::new();
-    for s in t.files.values() {
-        for imp in SOURCES[*s].1 {
-            if !t.files.contains_key(*imp) {
-                out.insert(imp.to_string());
+    for (holder, s) in &t.files {
+        for spec in SOURCES[*s].1 {
+            let imp = import_target(holder, spec);
+            if !t.files.contains_key(&imp) {
+                out.insert(imp);
             }
         }
     }
